@@ -919,4 +919,134 @@ theorem map_fst_ne_tail (irest : List ITok)
   obtain ⟨l, r4', rfl, h4⟩ := map_fst_cons h3
   exact h _ _ _ _ _ _ _ rfl
 
+
+theorem treeMetas_suffix (f : Nat) (its : List ITok) : (treeMetas f its).2 <:+ its := by
+  fun_induction treeMetas f its with
+  | case1 ts => exact List.suffix_refl _
+  | case2 f k i j l v m rest r ih =>
+    exact List.IsSuffix.trans ih ⟨[_, _, _, _], rfl⟩
+  | case3 f ts hne => exact List.suffix_refl _
+
+theorem multOK_of' (x : ITok) (oy : Option (Nat × ITok)) (a : Option Nat) (ob : Option (Option Nat)) (its : List ITok)
+    (hint : ∀ z ∈ its, intOK z.1 = true) (hx : atomTok x.1 = some a) (hxm : x ∈ its)
+    (hy : match oy, ob with
+         | none, none => True
+         | some (_, y), some b => atomTok y.1 = some b ∧ y ∈ its
+         | _, _ => False) :
+    MultOK (multVof x oy) (multBounds a ob).1 (multBounds a ob).2 := by
+  apply multOK_of x oy a ob hx (hint _ hxm)
+  rcases oy with _ | ⟨i, y⟩ <;> rcases ob with _ | b <;> first | exact hy | exact ⟨hy.1, hint _ hy.2⟩
+
+/-- `visitAssociation` on the node `treeAssociation` builds, given what the two multiplicities mean -/
+theorem association_visit (c : V → M V) (toks : List V) (wf : Nat) (la lf name rf ra : String)
+    (i1 i2 i3 i4 i5 i6 i7 i8 i9 i10 i11 : Nat) (x x' : ITok) (oy oy' : Option (Nat × ITok)) (f : Nat) (r3 : List ITok)
+    (up : List PT) (g : Nat) (llo : Nat) (lhi : Option Nat) (rlo : Nat) (rhi : Option Nat)
+    (hl : MultOK (multVof x oy) llo lhi) (hr : MultOK (multVof x' oy') rlo rhi)
+    (hg : 2 ≤ g) (hgm : PT.depthL (treeMetas f r3).1 ≤ g) :
+    visitF c toks wf (g+1) (.ctx (assocNode la lf name rf ra i1 i2 i3 i4 i5 i6 i7 i8 i9 i10 i11 (multNode x oy) (multNode x' oy') (treeMetas f r3).1) up) =
+      .ok (rAssoc { name := name, metaD := (parseMetas f [] (r3.map Prod.fst)).1, leftAsset := la, leftField := lf,
+                    leftMin := llo, leftMax := lhi, rightAsset := ra, rightField := rf, rightMin := rlo, rightMax := rhi }) := by
+  have hev := visitAssociation_eval c toks wf la lf name rf ra i1 i2 i3 i4 i5 i6 i7 i8 i9 i10 i11 x x' oy oy' f r3 up g hg hgm
+  rw [show assocNode la lf name rf ra i1 i2 i3 i4 i5 i6 i7 i8 i9 i10 i11 (multNode x oy) (multNode x' oy') (treeMetas f r3).1 =
+        .rule "association" _ from rfl, visitF_association]
+  rw [show assocNode la lf name rf ra i1 i2 i3 i4 i5 i6 i7 i8 i9 i10 i11 (multNode x oy) (multNode x' oy') (treeMetas f r3).1 =
+        .rule "association" _ from rfl] at hev
+  rw [hev, pp_tie _ _ _ _ _ _ _ _ _ _ _ _ _ hl hr]
+  rfl
+
+/-- **`visitAssociation`** (with `visitLinkname`, `visitField`, the `meta` comprehension and `_post_process_multitudes`):
+the tree builder fails iff the model parser fails; else the same tokens are consumed and the translated visitor
+returns the rendering of the model's association.  `intOK`: INT tokens carry ASCII digit strings. -/
+theorem association_loop (c : V → M V) (toks : List V) (wf : Nat) (f : Nat) (its : List ITok)
+    (hint : ∀ x ∈ its, intOK x.1 = true) :
+    match treeAssociation f its with
+    | none => parseAssociation f (its.map Prod.fst) = none
+    | some (t, irest) =>
+      ∃ a, parseAssociation f (its.map Prod.fst) = some (a, irest.map Prod.fst) ∧ (∃ cs, t = .rule "association" cs) ∧
+        (∀ z ∈ irest, z ∈ its) ∧
+        ∀ g up, t.depth ≤ g → visitF c toks wf g (.ctx t up) = .ok (rAssoc a) := by
+  fun_cases treeAssociation f its with
+  | case1 la i1 i2 lf i3 i4 r1 lm i5 name i6 i7 r2 h1 rm i8 rf i9 i10 ra i11 r3 h2 md r4 h3 =>
+    have m1 := mult_tie r1
+    rw [h1] at m1
+    obtain ⟨x, oy, a, ob, rfl, hx, hxm, hy, hp1, hs1⟩ := m1
+    have m2 := mult_tie r2
+    rw [h2] at m2
+    obtain ⟨x', oy', a', ob', rfl, hx', hxm', hy', hp2, hs2⟩ := m2
+    have hr1 : ∀ z ∈ r1, intOK z.1 = true := fun z hz => hint z (by simp [hz])
+    have hr2 : ∀ z ∈ r2, intOK z.1 = true := fun z hz => hr1 z (hs1 z (by simp [hz]))
+    have hl := multOK_of' x oy a ob r1 hr1 hx hxm hy
+    have hr := multOK_of' x' oy' a' ob' r2 hr2 hx' hxm' hy'
+    have hm := treeMetas_rest f r3
+    rw [h3] at hm
+    have hmd : md = (treeMetas f r3).1 := by rw [h3]
+    have hsub : ∀ z ∈ r4, z ∈ r1 := by
+      intro z hz
+      have hz3 : z ∈ r3 := by
+        have := (treeMetas_suffix f r3).subset; rw [h3] at this; exact this hz
+      have hz2 : z ∈ r2 := hs2 z (by simp [hz3])
+      exact hs1 z (by simp [hz2])
+    clear hy hy' hs1 hs2 hx hx' hxm hxm' hr1 hr2 hint h1 h2 h3
+    subst hmd
+    refine ⟨{ name := name, metaD := (parseMetas f [] (r3.map Prod.fst)).1, leftAsset := la, leftField := lf,
+              leftMin := (multBounds a ob).1, leftMax := (multBounds a ob).2, rightAsset := ra, rightField := rf,
+              rightMin := (multBounds a' ob').1, rightMax := (multBounds a' ob').2 }, ?_, ⟨_, rfl⟩, ?_, ?_⟩
+    · simp only [List.map_cons, parseAssociation, hp1, hp2]
+      rw [← hm]
+    · intro z hz
+      simp [hsub z hz]
+    · intro g up hg
+      simp only [depth_rule, depthL_append, PT.depthL, depth_tok, leaf] at hg
+      obtain ⟨g, rfl⟩ : ∃ g', g = g' + 1 := ⟨g - 1, by omega⟩
+      exact association_visit c toks wf la lf name rf ra i1 i2 i3 i4 i5 i6 i7 i8 i9 i10 i11 x x' oy oy' f r3 up g _ _ _ _ hl hr
+        (by omega) (by omega)
+  | case2 la i1 i2 lf i3 i4 r1 lm i5 name i6 i7 r2 h1 hne =>
+    show parseAssociation _ _ = none
+    have m1 := mult_tie r1
+    rw [h1] at m1
+    obtain ⟨x, oy, a, ob, rfl, hx, hxm, hy, hp1, hs1⟩ := m1
+    simp only [List.map_cons, parseAssociation, hp1]
+    have m2 := mult_tie r2
+    cases h2 : treeMult r2 with
+    | none => rw [h2] at m2; rw [m2]
+    | some p =>
+      obtain ⟨rm, irest⟩ := p
+      rw [h2] at m2
+      obtain ⟨x', oy', a', ob', rfl, hx', hxm', hy', hp2, hs2⟩ := m2
+      rw [hp2]
+      split
+      · rename_i heq
+        simp only [Option.some.injEq, Prod.mk.injEq] at heq
+        exact (map_fst_ne_tail irest (fun i8 rf i9 i10 ra i11 r3 e => hne _ i8 rf i9 i10 ra i11 r3 (by rw [h2, e])) _ _ _ heq.2).elim
+      · rfl
+  | case3 la i1 i2 lf i3 i4 r1 hne =>
+    show parseAssociation _ _ = none
+    simp only [List.map_cons, parseAssociation]
+    have m1 := mult_tie r1
+    cases h1 : treeMult r1 with
+    | none => rw [h1] at m1; rw [m1]
+    | some p =>
+      obtain ⟨lm, irest⟩ := p
+      rw [h1] at m1
+      obtain ⟨x, oy, a, ob, rfl, hx, hxm, hy, hp1, hs1⟩ := m1
+      rw [hp1]
+      split
+      · rename_i heq
+        simp only [Option.some.injEq, Prod.mk.injEq] at heq
+        exact (map_fst_ne_link irest (fun i5 name i6 i7 r2 e => hne _ i5 name i6 i7 r2 (by rw [h1, e])) _ _ heq.2).elim
+      · rfl
+  | case4 ts hne =>
+    show parseAssociation _ _ = none
+    unfold parseAssociation
+    split
+    · rename_i la lf r1 heq
+      exfalso
+      obtain ⟨i, r1, rfl, h1⟩ := map_fst_cons heq
+      obtain ⟨j, r2', rfl, h2⟩ := map_fst_cons h1
+      obtain ⟨k, r3', rfl, h3⟩ := map_fst_cons h2
+      obtain ⟨l, r4', rfl, h4⟩ := map_fst_cons h3
+      exact hne _ _ _ _ _ _ _ rfl
+    · rfl
+
+
 end MalVerif.Py.Visitor
